@@ -124,7 +124,7 @@ def run(rng, tier, res=None, metrics=None):
             res.hit("poszero_fixed_vectors")
         for c in range(per):
             d = rng.choice([1, 2, 3, 4, 5, 7, 8, 9, 12])
-            special = rng.choice([None, None, None, "zeros", "lattice", "equal", "parallel", "near", "poszero"])
+            special = rng.choice([None, None, None, "zeros", "lattice", "equal", "parallel", "near", "poszero", "sharedbig", "close"])
             x = gen_vec(rng, d, dom, special)
             if special == "poszero":
                 # zero-containing non-negative vectors: what avoid_zero_division exists for (finiteness only)
@@ -161,6 +161,21 @@ def run(rng, tier, res=None, metrics=None):
             else:
                 y = gen_vec(rng, d, dom, special if special != "zeros" else rng.choice([None, "zeros"]))
             z = gen_vec(rng, d, dom, "lattice" if special == "lattice" else None)
+            if special == "sharedbig" and dom != "prob":
+                # quantised features: two vectors agree EXACTLY in a large component, the third differs there slightly
+                big = float(rng.choice([50, 100, 1000]))
+                x = [float(rng.randint(1, 4)) for _ in range(d)] + [big]
+                y = [float(rng.randint(1, 4)) for _ in range(d)] + [big]
+                z = list(y[:-1]) + [big + 1.0]
+                if rng.random() < 0.5:
+                    z[rng.randrange(d)] = float(rng.randint(1, 4))
+                d = d + 1
+            if special == "close" and dom in ("real", "nonneg", "pos"):
+                # three nearby, roughly collinear points less than 1 apart (where a concave/convex transform shows)
+                base_ = [rng.uniform(0.2, 1.0) for _ in range(d)]
+                dir_ = [rng.uniform(0.5, 1.0) for _ in range(d)]
+                t1, t2 = sorted([rng.uniform(0.05, 0.3), rng.uniform(0.3, 0.6)])
+                x = list(base_); z = [b_ + t1 * u_ for b_, u_ in zip(base_, dir_)]; y = [b_ + t2 * u_ for b_, u_ in zip(base_, dir_)]
             xa, ya, za = np.array(x), np.array(y), np.array(z)
             xb, yb = xa.tobytes(), ya.tobytes()
             meta = {"metric": name, "x": x, "y": y}
